@@ -309,8 +309,8 @@ PROPS["C02"] = dict(
           "(only the first corrupts). Three phases per case against one store: corrupted sync, honest retry, resync with another position "
           "corrupted. After EVERY sync every key/value of the destination store is re-hashed with the CID's own function and length, hooks must "
           "name only blocks stored intact, the corrupted sync must fail iff the corrupted response was actually consumed, and the store after "
-          "the honest retry must equal the publisher's. Corruption kind cut-mid-body announces the full length and cuts the connection after k bytes (a read error mid-body); the next answer for that CID then carries only the remainder. Sub-check failing-store: the LOCAL store fails one chosen block write after k bytes and still commits what it has; the sync must fail, nothing that does not hash to its CID may be stored or reported, and the retry with a working store must complete. A third of the corrupt-sync cases mark the subscriber's own link system TrustedStorage; corruption kinds append-whitespace / prepend-whitespace add what a text-oriented host may add around a JSON document. distinct_nontrivial = distinct (hash prefix, corruption, position, mode) tuples."),
-    floors={"quick": {"mut_append-whitespace": 40, "subscriber_link_system_marked_trusted": 200, "remainder_only_answers": 60, "store_write_faults_hit": 150, "corrupted_response_consumed": 1500, "audited_store_entries": 5000, "two_address_cases": 200, "big_block_cases": 40, "hash_identity": 100, "hash_sha2-256/16": 100}},
+          "the honest retry must equal the publisher's. Corruption kind cut-mid-body announces the full length and cuts the connection after k bytes (a read error mid-body); the next answer for that CID then carries only the remainder. Sub-check failing-store: the LOCAL store fails one chosen block write after k bytes and still commits what it has; the sync must fail, nothing that does not hash to its CID may be stored or reported, and the retry with a working store must complete. A third of the corrupt-sync cases mark the subscriber's own link system TrustedStorage; corruption kinds append-whitespace / prepend-whitespace add what a text-oriented host may add around a JSON document. Sub-check branching-traversal: the subscriber follows every link of an advertisement (StrictAdsSelector(false)), advertisements carry entry chunks, one reachable block (advertisement or chunk) is corrupted and the links visited after it answer correctly; the sync must fail, set no latest-synced, neither store nor report the bad block, and the honest retry must store every reachable block. distinct_nontrivial = distinct (hash prefix, corruption, position, mode) tuples."),
+    floors={"quick": {"mut_append-whitespace": 40, "corrupted_response_among_sibling_links": 150, "subscriber_link_system_marked_trusted": 200, "remainder_only_answers": 60, "store_write_faults_hit": 150, "corrupted_response_consumed": 1500, "audited_store_entries": 5000, "two_address_cases": 200, "big_block_cases": 40, "hash_identity": 100, "hash_sha2-256/16": 100}},
     level_text=("Fault enumeration over (hash prefix x corruption kind x request position x mode), sampled with a seeded PRNG: the real "
                 "subscriber syncs from a real publisher whose responses are corrupted in flight; the destination store is audited entry by entry."),
     level_note="Trusted: go-multihash for the audit re-hash (same library the code under test uses; an independent implementation is not available offline).",
@@ -407,9 +407,9 @@ PROPS["C08"] = dict(
           "advertisement after the baseline is reported exactly once; no block requested twice; latest-synced == last announced head or an error "
           "notification naming that head. Half of the announce-only runs answer a share of first block requests with 500, so announce-triggered "
           "syncs fail while other publishers wait for a slot; the number of announce-triggered syncs between sync.enter and sync.exit is bounded "
-          "by the maximum as well; the pending announcement is never taken while another sync of that publisher is between enter and exit. A quarter of the schedules use an idle-handler TTL of 0.3-3 ms with requests held at the publisher (the cleaner runs many times during every sync); the mixed runs also run SyncEntries with a scoped hook on the same publishers, whose blocks must all reach that hook. distinct_nontrivial = run configurations x (coalescing seen, spawn-while-running seen); distinct interleaving "
+          "by the maximum as well; the pending announcement is never taken while another sync of that publisher is between enter and exit. A quarter of the schedules use an idle-handler TTL of 0.3-3 ms with requests held at the publisher (the cleaner runs many times during every sync); the mixed runs also run SyncEntries with a scoped hook on the same publishers, whose blocks must all reach that hook. Announce-only runs with failing requests end with an announcement whose sync is held and then fails, and a newer announcement made once that sync is under way (the publisher front reports the arrival of the held request): the newer one is the last announcement, and the error notification that excuses a latest-synced short of it must name that head. In runs with expiring contexts the block hook takes its time on a third of the blocks, and a third of the explicit syncs are cancelled from the next hook call for their publisher, so contexts end while blocks are being reported; the hook calls that follow must still lie inside that sync. A poller calls GetLatestSync throughout. distinct_nontrivial = run configurations x (coalescing seen, spawn-while-running seen); distinct interleaving "
           "signatures are counted separately."),
-    floors={"quick": {"runs_with_remove_handler_calls": 15, "entries_syncs_of_the_same_publishers": 120, "runs_with_idle_handler_ttl_shorter_than_a_sync": 25, "coalesced_announcements": 100, "spawn_while_previous_sync_running": 20, "syncs_observed": 300, "runs_reaching_the_concurrency_limit": 3, "runs_with_last_known_baseline": 10, "explicit_syncs_with_expiring_context": 10, "runs_with_failing_syncs": 15, "failed_announce_syncs": 50}},
+    floors={"quick": {"runs_with_remove_handler_calls": 15, "get_latest_sync_calls_during_syncs": 5000, "runs_ending_with_a_newer_announcement_during_a_failing_sync": 100, "slow_hook_calls_in_runs_with_expiring_contexts": 400, "explicit_syncs_cancelled_from_a_hook_call": 25, "entries_syncs_of_the_same_publishers": 120, "runs_with_idle_handler_ttl_shorter_than_a_sync": 25, "coalesced_announcements": 100, "spawn_while_previous_sync_running": 20, "syncs_observed": 300, "runs_reaching_the_concurrency_limit": 3, "runs_with_last_known_baseline": 10, "explicit_syncs_with_expiring_context": 10, "runs_with_failing_syncs": 15, "failed_announce_syncs": 50}},
     max_counters=["max_concurrent_announce_syncs", "max_announce_syncs_between_start_and_end"],
     watchdog_s={"quick": 900, "thorough": 7200},
     level_text=("Exploration over schedules: many short seeded runs with injected delays; every run's full event log is checked offline for mutual "
@@ -437,8 +437,8 @@ PROPS["C14"] = dict(
           "order reaches the fast listener out of order. Failing announce syncs are held at the publisher so that newer announcements queue "
           "behind them; every handling goroutine that ran a sync must have sent exactly one notification, and explicit syncs that ran and "
           "returned success must equal the notifications sent from explicit-sync goroutines. "
-          "One explicit sync in four is a resync or carries an explicit older stop CID (the head recorded as latest then does not change, the notification is due all the same). distinct_nontrivial = distinct run configurations."),
-    floors={"quick": {"listener_read-some-then-stall": 15, "explicit_resyncs": 100, "explicit_syncs_with_stop_cid": 80, "must_deliveries_checked": 600, "emitted_events": 500, "long_runs_with_stalled_listener": 5, "listener_stalled": 10, "listener_cancel-then-read": 10, "listener_cancel-after-n": 10, "announce_triggered_syncs_checked": 200, "held_notification_overlap_runs": 12, "explicit_syncs_completed": 300}},
+          "One explicit sync in four is a resync or carries an explicit older stop CID (the head recorded as latest then does not change, the notification is due all the same). A share of the announcements carries an address the subscriber cannot use (the handling goroutine cannot start a sync): such a goroutine sends at most one notification. distinct_nontrivial = distinct run configurations."),
+    floors={"quick": {"listener_read-some-then-stall": 15, "announcements_with_an_unusable_address": 80, "explicit_resyncs": 100, "explicit_syncs_with_stop_cid": 80, "must_deliveries_checked": 600, "emitted_events": 500, "long_runs_with_stalled_listener": 5, "listener_stalled": 10, "listener_cancel-then-read": 10, "listener_cancel-after-n": 10, "announce_triggered_syncs_checked": 200, "held_notification_overlap_runs": 12, "explicit_syncs_completed": 300}},
     watchdog_s={"quick": 900, "thorough": 7200},
     level_text=("Exploration over schedules: each run's listeners are compared with the emission log; delivery obligations are derived from logical "
                 "timestamps so that only what the statement promises is demanded."),
@@ -460,8 +460,8 @@ PROPS["C15"] = dict(
           "goroutine exited; no hook call, store write, event emission or forwarding has a logical timestamp after the first Close return; all "
           "listener channels are closed; every entry point (SyncAdChain, SyncEntries, SyncOneEntry, SyncHAMTEntries, Announce, OnSyncFinished, "
           "cancel functions, Get/SetLatestSync, RemoveHandler, HttpPeerStore, Close) returns on the closed subscriber (hang rule); no goroutine "
-          "with a dagsync/announce frame remains. A third of the explicit cases queue a second explicit sync of the same publisher behind the gated one; the goroutines net/http keeps per client connection are counted before the subscriber exists and after Close. distinct_nontrivial = distinct (sync kind, close point, closers, racing activity) tuples."),
-    floors={"quick": {"announce_syncs_held_until_the_watcher_was_stopped": 25, "http_client_connections_checked": 150, "close_with_second_explicit_sync_queued": 15, "post_close_calls": 800, "close_point_reached_sync.enter": 5, "close_point_reached_front": 5, "close_point_reached_pending.taken": 2, "closers_4": 5, "close_with_sync_waiting_for_async_slot": 1}},
+          "with a dagsync/announce frame remains. A third of the explicit cases queue a second explicit sync of the same publisher behind the gated one; the goroutines net/http keeps per client connection are counted before the subscriber exists and after Close. Where the queued call is seen parked on the publisher's lock inside the library (goroutine dump) before Close is called, it has been accepted and must complete without error. One case in six runs the subscriber on a libp2p host with a gossip topic of its own (RecvAnnounce with a topic name): the goroutines running go-libp2p-pubsub code are counted before the subscriber exists and after Close, while the host stays up. distinct_nontrivial = distinct (sync kind, close point, closers, racing activity) tuples."),
+    floors={"quick": {"announce_syncs_held_until_the_watcher_was_stopped": 25, "close_with_second_explicit_sync_waiting_for_the_publishers_lock": 12, "subscribers_with_their_own_gossip_topic_closed": 20, "http_client_connections_checked": 150, "close_with_second_explicit_sync_queued": 15, "post_close_calls": 800, "close_point_reached_sync.enter": 5, "close_point_reached_front": 5, "close_point_reached_pending.taken": 2, "closers_4": 5, "close_with_sync_waiting_for_async_slot": 1}},
     watchdog_s={"quick": 900, "thorough": 7200},
     level_text=("Exploration over schedules: Close is started at every instrumented point of a running sync; what happens after its first return "
                 "is read from the event log and goroutine dumps; blocking is decided by the hang rule."),
